@@ -399,6 +399,9 @@ var seedQueries = []string{
 	`subscription S { obj { int objNN { intNN } } }`,
 	`{ req(x: 1, y: [{b: "s"}]) r2: req(x: 2, y: []) }`,
 	`query($x: Int!, $y: [In!]!) { req(x: $x, y: $y) }`,
+	`query($w: Boolean = false, $t: Boolean = true) { int @skip(if: $w) str @include(if: $t) obj @include(if: $w) { int @skip(if: $t) } ... @skip(if: $w) { float } ...F @include(if: $t) } fragment F on Query { id }`,
+	`query($n: Int) { firstFoos { edges { cursor node } totalCount pageInfo { hasNextPage } } foos(first: $n) { edges { node cursor } pageInfo { hasNextPage endCursor } } l: foos(last: 2) { edges { node } } }`,
+	`query($d: Boolean, $e: Boolean = true, $n: String = "Obj") { __type(name: $n) { fields(includeDeprecated: $d) { name isDeprecated } } c: __type(name: "Color") { enumValues(includeDeprecated: $e) { name deprecationReason } a: enumValues(includeDeprecated: null) { name } b: fields(includeDeprecated: null) { name } } }`,
 	`{ __schema { types { name kind fields { name args { name defaultValue type { name ofType { name } } } } } directives { name locations args { name } } } __type(name: "In") { inputFields { name defaultValue } } }`,
 	`{ ...A ...A ...B } fragment A on Query { obj { int } ...B } fragment B on Query { obj { str } int }`,
 	`{ obj { ...on Obj { obj { ... { obj { int @tag(n: 1, in: {b: "x"}) } } } } } }`,
